@@ -36,6 +36,8 @@ def render(e):
         return "true" if e else "false"
     if isinstance(e, int):
         return str(e)
+    if isinstance(e, float):
+        return repr(e)
     if isinstance(e, list):
         return "(" + " ".join(render(x) for x in e) + ")"
     k = e[0]
